@@ -16,7 +16,7 @@ CHECKS = {
           "DESIGN.md 4/C02"),
   "C03": ("model_checking",
           "deviation-bounded schedule exploration + exhaustive cancel-point/queue-state/residue grids on real chmux code; quiescence + ledger-derived credit-conservation probe oracle",
-          "(a) scripts with sends/try_sends/connects cancelled at every poll index while the path to the wire is blocked, receiver-side cancelled recv with a full return queue: at quiescence nothing may be pending and send(P) for the ledger-derived pool P must complete with the reverse direction held; (b) connect(k ports) for receive buffers 4..=17 x residues 0..7 x chunk sizes: no step-horizon ending, no empty PortData, <= k frames; (c) a stalled port never blocks other/new ports.",
+          "(a) scripts with sends/try_sends/connects cancelled at every poll index while the path to the wire is blocked, receiver-side cancelled recv with a full return queue: at quiescence nothing may be pending and send(P) for the ledger-derived pool P must complete with the reverse direction held; (b) connect(k ports) for receive buffers 4..=17 x residues 0..7 x chunk sizes: no step-horizon ending, no empty PortData, <= k frames; (c) a stalled port never blocks other/new ports, whichever way its sender got stuck (whole messages, a chunked body using exactly the granted credit then finish(), an over-long chunk, port requests over the stalled port).",
           "Liveness judged at quiescence of a healthy transport under the paused clock; step horizon 3000/20000 classifies livelock. Same scheduler assumptions as C01.",
           "DESIGN.md 4/C03"),
   "C07": ("model_checking",
@@ -51,13 +51,13 @@ CHECKS = {
           "DESIGN.md 4/C11"),
   "C04": ("model_checking",
           "bounded exhaustive item-sequence enumeration on real base / lr / mpsc / oneshot channels with a per-sender prefix oracle; deviation-bounded schedule exploration for scripts without helper threads",
-          "All item sequences of depth 4/5 (buffered) and 3/4 (streamed) over {value, streamed value, serialization failure early/late, over sender limit, over receiver limit, undecodable, send cancelled at poll p} with at most 2 failing items, on base and lr channels, pairs of scripts on mpsc with 2 remote + 1 local sender, oneshot batches. Oracle: per sender the received values are a duplicate-free ordered prefix of the successfully sent receivable items, payload byte-exact, a failing item is never delivered, no gap, no loss unless the channel ended, receiver errors <= failing items.",
+          "All item sequences of depth 4/5 (buffered) and 3/4 (streamed) over {value, streamed value, serialization failure early/late, over sender limit, over receiver limit, undecodable, send cancelled at poll p} with at most 2 failing items, on base and lr channels, pairs of scripts on mpsc with 2 remote + 1 local sender, oneshot batches. Oracle: per sender the received values are a duplicate-free ordered prefix of the successfully sent receivable items, payload byte-exact, a failing item is never delivered, no gap, no loss unless the channel ended, receiver errors <= failing items. Also with every recv() future dropped at its p-th poll and retried (base, lr, mpsc; buffered p=1..3, streamed p=1..13).",
           "Items above max_data_size use spawn_blocking helper threads that cannot be scheduled by any installed tool: those scenarios are input-exhaustive only (free-running schedule), labelled in the evidence.",
           "DESIGN.md 4/C04"),
   "C05": ("model_checking",
           "bounded exhaustive enumeration of value shapes x channel-half kinds x hops x port limits on real endpoints with a unique-label wiring oracle; deviation-bounded schedule exploration of core shapes",
-          "1..4 halves of 11 kinds (mpsc/oneshot/watch/lr/bin sender and receiver halves, broadcast receiver) placed in vec / option / map / tuple / enum / nested containers, forwarded over 1..3 connections, with queued items at hand-over, low credit, max_ports exhaustion on all or only the receiving endpoint. Every half is exercised with a label unique to its channel: it must arrive at its counterpart and nowhere else; when a half cannot be connected both ends must report an error within the horizon; a failing value must not wedge the carrying channel.",
-          "Values stay below max_data_size (no helper threads). lr halves are documented as non-forwardable and are expected to fail cleanly over >= 2 hops.",
+          "1..4 halves of 11 kinds (mpsc/oneshot/watch/lr/bin sender and receiver halves, broadcast receiver) placed in vec / option / map / tuple / enum / nested containers, forwarded over 1..3 connections, with queued items at hand-over, low credit, max_ports exhaustion on all or only the receiving endpoint. Every half is exercised with a label unique to its channel: it must arrive at its counterpart and nowhere else; when a half cannot be connected both ends must report an error within the horizon; a failing value must not wedge the carrying channel. Every half kind is also sent in front of bulk data that pushes the value over max_data_size (serialized twice: buffered attempt, then streamed).",
+          "Apart from the bulk cases (free-running schedule, labelled) values stay below max_data_size (no helper threads). lr halves are documented as non-forwardable and are expected to fail cleanly over >= 2 hops.",
           "DESIGN.md 4/C05"),
   "C15": ("model_checking",
           "grid enumeration (update count x drop/keep x transfer moment x hops x reader style x pacing x stalled transport) + deviation-bounded schedule exploration of real watch channels",
@@ -66,12 +66,12 @@ CHECKS = {
           "DESIGN.md 4/C15"),
   "C16": ("model_checking",
           "grid enumeration (burst x send/receive buffer x consumption pattern x local/remote x join point x pacing) + deviation-bounded schedule exploration of real broadcast channels; per-subscriber log oracle",
-          "Per subscriber: values strictly increasing, none from before the subscription, exactly one lag marker at every gap and none without a gap, Closed at the end (never a hang, also with send_buffer 1); a subscriber that keeps up with a paced sender receives every value even next to a subscriber that never consumes; send is synchronous and never fails while subscribers exist.",
+          "Per subscriber: values strictly increasing, none from before the subscription, exactly one lag marker at every gap (including a gap at the very end, before Closed, also when every sender was dropped before the stalled subscriber drained) and none without a gap, Closed at the end (never a hang, also with send_buffer 1); a subscriber that keeps up with a paced sender receives every value even next to a subscriber that never consumes; send is synchronous and never fails while subscribers exist.",
           "'Keeps up' defined operationally (quiescence between sends).",
           "DESIGN.md 4/C16"),
   "C18": ("model_checking",
           "bounded exhaustive enumeration of byte strings x write partitions x modes x endings x cut frames on real rch::io channels + deviation-bounded schedule exploration of core transfers",
-          "Lengths around chunk_size/receive_buffer, all compositions into <= 3/4 writes incl. empty writes and a flush, sized with declared L-1/L/L+1 and unsized, shutdown / flush+drop / drop, read buffer sizes 1/chunk/L+1, either half remote, connection cut after every frame. Oracle: bytes read are a prefix of bytes accepted; EOF is reported successfully only for complete streams; over-long writes refused; complete healthy streams fully delivered; no panic and no hang on either side.",
+          "Lengths around chunk_size/receive_buffer, all compositions into <= 3/4 writes incl. empty writes and a flush, sized with declared L-1/L/L+1 and unsized, shutdown / flush+drop / drop, read buffer sizes 1/chunk/L+1, either half remote, the sender moving on to a third endpoint in the middle of the stream, connection cut after every frame. Oracle: bytes read are a prefix of bytes accepted; EOF is reported successfully only for complete streams; over-long writes refused; complete healthy streams fully delivered; no panic and no hang on either side.",
           "A cut makes both directions report end-of-stream / sink error.",
           "DESIGN.md 4/C18"),
   "C12": ("model_checking",
@@ -81,12 +81,12 @@ CHECKS = {
           "DESIGN.md 4/C12"),
   "C19": ("model_checking",
           "enumeration of abandonment stages x method kinds x server flavours and failing items x positions, each under deviation-bounded schedule exploration; execution-log oracle",
-          "A's call future dropped before queueing / queued behind another call / at the first or second suspension point / with the reply in flight, or A's connection cut, for a cancellable and a #[no_cancel] method on by-value, ref-mut and shared-mut (spawn on/off) servers; unknown method (newer client trait), over-long request, over-long reply at position 0..2 among three calls. Oracle: cancellable executions stop at the next suspension point once the server has settled, #[no_cancel] ones finish, another client's &mut and &self calls complete afterwards (lock released), serve() is still running, an item failure fails only that call.",
+          "A's call future dropped before queueing / queued behind another call / at the first or second suspension point / with the reply in flight, or A's connection cut, or the caller dropped / cut while a reply about twice its flow-control window is being transferred, for a cancellable and a #[no_cancel] method on by-value, ref-mut and shared-mut (spawn on/off) servers; unknown method (newer client trait), over-long request, over-long reply at position 0..2 among three calls. Oracle: cancellable executions stop at the next suspension point once the server has settled, #[no_cancel] ones finish, another client's &mut and &self calls complete afterwards (lock released), serve() is still running, an item failure fails only that call.",
           "Cancellation is required only after two quiescence periods with the caller gone. Known finding F6 (over-long reply ends serve(), pinned by the suite) is listed in known_findings.json. Mismatched argument types are decoded leniently by the default codec and are not a failing item.",
           "DESIGN.md 4/C19"),
   "C17": ("model_checking",
           "deviation-bounded schedule exploration with preemption injection + timing sweeps of real remote rw_lock handles; timed-history oracle",
-          "Two clones on the owner's endpoint (shared cache) and two independently sent handles on a remote endpoint run scripts of <= 3 operations over {read and hold, write+commit, write+drop}, cold and warm caches; a write shifted by k = 0..23/39 steps against a read on another handle, each with a further deviation; loss of the connection of an endpoint holding a read or write guard. Oracle: no write guard interval overlaps any other guard, write guards obtain the latest commit, reads return a value current at some instant of the call, commits are never lost, dropped write guards change nothing, and with all guards released every request completes (no deadlock).",
+          "Two clones on the owner's endpoint (shared cache) and two independently sent handles on a remote endpoint run scripts of <= 3 operations over {read and hold, write+commit, write+drop}, cold and warm caches; a write shifted by k = 0..23/39 steps against a read on another handle, each with a further deviation; loss of the connection of an endpoint holding a read or write guard; a remote handle committing a value the owner cannot decode (the commit must fail and change nothing). Oracle: no write guard interval overlaps any other guard, write guards obtain the latest commit, reads return a value current at some instant of the call, commits are never lost, dropped write guards change nothing, and with all guards released every request completes (no deadlock).",
           "Guard intervals measured with the scheduler step counter; a write guard ends when commit() consumes it. Holder-loss cases judge the surviving endpoint only. Quick tier is time-capped (reported).",
           "DESIGN.md 4/C17"),
   "C13": ("model_checking",
